@@ -4,6 +4,11 @@ import json, subprocess
 
 # id: (level, engine, technique, level text, level note, design ref)
 CHECKS = {
+ "C14": ("exploration", "space",
+         "complete enumeration of each route pair's common-domain lattice x shared parameters x ellipsoids; two executions of the real code (or real code vs closed form / quadrature) compared",
+         "tmerc vs btmerc (4 shared parameter sets) and utm vs butm (2 zones) within 3 degrees of the central meridian, forward and inverse, 1 mm; cart operator forward bit-identical to Ellipsoid::cartesian and its inverse within 1 mm of Ellipsoid::geographic for h in [-10 km, 100 km]; latitude (6 kinds, both directions), curvature (5 kinds), gravity (5 formulae) and geodesic (both directions) operators against the ellipsoid methods to rounding; 10 mappings shared by axisswap / unitconvert / adapt to 1 ulp in both directions; every non-grid catalogue definition (54) through Minimal and Plain bit-identical in both directions; series-based conformal and authalic latitudes vs closed forms (1e-11 rad, |lat| <= 89.9) and meridian arcs vs Gauss-Legendre quadrature (1e-6 m). Quick: 4 ellipsoids, thorough: every instantiable built-in.",
+         "Differential oracle for the operator/method pairs. Lattice coverage only.",
+         "DESIGN.md §3 C14"),
  "C07": ("exploration", "space",
          "complete enumeration of Helmert parameter sets x spellings x epochs x directions on a fixed point set, against the EPSG small-angle formulae and metamorphic relations",
          "All combinations of 3 translations x 4 rotations (0, sub-arcsecond, 10 arcsec class, 30 degrees exact) x 3 scales x 8 rate subsets x 2 conventions x exact/small-angle x t_obs absent/given (quick: rate subsets reduced off the main diagonal), each in scalar, list and mixed spelling, applied forward and inverse to 27 cartesian points within 1e7 m that carry four different epochs in ONE set: forward equals T(t)+(1+s(t))R(t)x from a 3x3 reference evaluated per tuple epoch (1e-8 m; second order in the angles in exact mode); distances scale by 1+s; PV(r) == CF(-r); exact PV and CF matrices are transposes; spellings bit-identical; epoch untouched; t_obs == every tuple at that epoch; inverse undoes forward (1e-9 m exact/unrotated, second order otherwise); molodensky (full 0.5 m, abridged 5 m) against cart|helmert|cart inv for 5 shifts up to 200 m on a lat/lon/height lattice.",
@@ -112,7 +117,7 @@ def main():
             "add_only": True,
         },
         "engines": [
-            {"name": "space", "path": "/verif/mc/src/engine.rs", "kind_free_text": "exhaustive mixed-radix product enumeration on 16 threads (par_range/decode)", "serves_properties": ["C01", "C05", "C06", "C07", "C11", "C13", "C16", "C19"]},
+            {"name": "space", "path": "/verif/mc/src/engine.rs", "kind_free_text": "exhaustive mixed-radix product enumeration on 16 threads (par_range/decode)", "serves_properties": ["C01", "C05", "C06", "C07", "C11", "C13", "C14", "C16", "C19"]},
             {"name": "explore", "path": "/verif/mc/src/props", "kind_free_text": "explicit-state / program-tree exploration of the real API against reference models written in Rust", "serves_properties": ["C02", "C03", "C04", "C12", "C17", "C18"]},
             {"name": "sched", "path": "/verif/mc/src/props/c18.rs", "kind_free_text": "shuttle DfsScheduler over real threads sharing Plain contexts and the process-wide grid cache; yield points from hook H4", "serves_properties": ["C18"]},
             {"name": "workers", "path": "/verif/mc/src/engine.rs", "kind_free_text": "worker subprocesses (2 MiB stack, 4 GiB address space, watchdog) for hang / overflow / abort detection", "serves_properties": ["C04"]},
